@@ -684,6 +684,87 @@ def job_observer_completion(args):
         signal.alarm(0)
 
 
+def job_raising_observer(args):
+    """C08 / C14 / C05, directed: an observer (or the application's logging behind it) raises while a completion is being
+    delivered.  The exception reaches the caller of fire_event(); the net has consumed the completion by then, so the
+    same completion reported again is refused (False, no notification), it is not awaited any more, and a call that
+    returns False has delivered nothing"""
+    import re as _re
+
+    import impl
+    from pfdl_scheduler.scheduler import Event
+
+    seed, = args
+    rng = random.Random(seed)
+    signal.signal(signal.SIGALRM, _alarm)
+    signal.alarm(60)
+    try:
+        prog = progs.gen_program(rng, depth=2, ploops=False)
+        text = progs.print_program(prog, indent=4)
+        answers = sc.Answers(random.Random(seed + 1))
+        run = impl.Run(text, ids=rng.choice(["test", "uuid"]), answers=answers)
+        if run.s is None or not run.valid:
+            return {"seed": seed, "skip": True}
+        problems = []
+        pat = _re.compile(r"^(Service|Task) (\S+) with UUID '([^']*)' (finished|started)\.$")
+        target = rng.randint(1, 6)
+        exc_type = rng.choice([KeyError, RuntimeError, ValueError])
+        state = {"n": 0, "raised": 0, "armed": False}
+
+        def hook(obs, ntype, data):
+            if obs.idx != 0 or not state["armed"] or str(ntype).endswith("PETRI_NET") or not isinstance(data, tuple):
+                return
+            if not pat.match(data[0]):
+                return
+            state["n"] += 1
+            if state["n"] == target and not state["raised"]:
+                state["raised"] = 1
+                raise exc_type("the observer failed")
+
+        run.update_hook = hook
+        for k in ("ts", "ss", "sf", "tf"):
+            run.register(k, 0)
+        run.attach(0)
+        run.start()
+        n = 0
+        escaped = 0
+        while run.pending and n < 30:
+            n += 1
+            k = run.pending[0] if rng.random() < 0.6 else rng.choice(run.pending)
+            uid = run.announced[k]
+            state["armed"] = True   # only completions are disturbed (start() has no event to repeat)
+            was = state["raised"]
+            c = run.complete(k)
+            state["armed"] = False
+            if c.get("ret") is False and [e for e in c.get("out", []) if e and e[0] in ("INV", "UPD")]:
+                problems.append("the completion of %s returned False although %d notifications were delivered in that call (first %r)"
+                                % (uid, len(c["out"]), c["out"][0]))
+                break
+            if state["raised"] and not was:
+                if not c.get("exc"):
+                    if c.get("ret") is not True:
+                        problems.append("an observer raised %s while the completion of %s was delivered: fire_event() returned %r and raised nothing"
+                                        % (exc_type.__name__, uid, c.get("ret")))
+                        break
+                else:
+                    escaped += 1
+                if k in run.pending:
+                    run.pending.remove(k)
+                if any(a[0] == "service_finished" and ('"service_uuid": "%s"' % uid) in a[1] for a in (c.get("awaited") or [])):
+                    problems.append("after the interrupted delivery the completion of %s is awaited again" % uid)
+                    break
+                c2 = run._call({"op": "junk", "junk": "dup", "n": k}, lambda: run.s.fire_event(Event("service_finished", {"service_uuid": uid})))
+                if c2.get("ret") is not False or [e for e in c2.get("out", []) if e and e[0] in ("INV", "UPD")]:
+                    problems.append("the completion of %s, consumed by the net before the observer raised, was accepted a second time: returned %r, %d events"
+                                    % (uid, c2.get("ret"), len(c2.get("out", []))))
+                    break
+        return {"seed": seed, "text": text, "problems": problems, "raised": state["raised"], "escaped": escaped}
+    except CaseTimeout:
+        return {"seed": seed, "skip": True}
+    finally:
+        signal.alarm(0)
+
+
 def job_variants(case):
     """C18: the same explicit case under configuration variants; returns list of (name, canonical renamed trace)"""
     import impl  # noqa: F401
@@ -1175,7 +1256,7 @@ def _run(ctx, cfg, n_cases, pool, res):
                                                          "how": "re-run: tools/sched_family.job_callable_kinds((job_seed,))"}})
         res["notes"].append("kinds of callables (function, lambda, kept / unreferenced bound method, partial, callable object): %d runs, %d notifications" % (nck, nnot))
     # C08: completion reported from inside an observer's update() ---------------------------------------
-    if prop in ("C08", "C01", "C02"):
+    if prop in ("C08", "C01", "C02", "C03", "C05"):
         nobs = 0
         for r in pool.map(job_observer_completion, [(seed * 7 + i,) for i in range(60 if tier == "quick" else 600)], chunksize=2):
             if r.get("skip"):
@@ -1188,6 +1269,21 @@ def _run(ctx, cfg, n_cases, pool, res):
                                                          "text": r["text"], "job_seed": r["seed"],
                                                          "how": "re-run: tools/sched_family.job_observer_completion((job_seed,))"}})
         res["notes"].append("completions from inside observer.update(): %d runs" % nobs)
+    # an observer raises while a completion is delivered ----------------------------------------------
+    if prop in ("C08", "C14", "C05"):
+        nro = nraised = 0
+        for r in pool.map(job_raising_observer, [(seed * 11 + i,) for i in range(60 if tier == "quick" else 600)], chunksize=2):
+            if r.get("skip"):
+                continue
+            nro += 1
+            nraised += r.get("raised", 0)
+            if r["problems"] and "raising_observer" not in seen_rules:
+                seen_rules.add("raising_observer")
+                res["violations"].append({"rule": "raising_observer", "msg": r["problems"][0],
+                                          "replay_obj": {"property": prop, "family": "sched", "rule": "raising_observer", "message": r["problems"][0],
+                                                         "text": r["text"], "job_seed": r["seed"],
+                                                         "how": "re-run: tools/sched_family.job_raising_observer((job_seed,))"}})
+        res["notes"].append("an observer raises during the delivery of a completion: %d runs, %d exceptions raised" % (nro, nraised))
     # C08: the run without the rejected calls must be the same run -----------------------------------
     if prop == "C08":
         def redundant(r):
